@@ -2,9 +2,11 @@ package sim
 
 import (
 	"fmt"
+	"os"
 	"regexp"
 	"strconv"
 	"strings"
+	"time"
 )
 
 // C11 — every input is answered with a result or an error, never a crash or a hang.
@@ -33,7 +35,7 @@ var c11Probes = []string{
 	"with(.[]; . = 1)", ".[] as $x | $x", ".[] as $x ireduce (0; . + $x)", "map_values(. + 1)", "to_entries | from_entries", "[paths]", "del(..)", "del(.[])", ".[] |= empty", "select(.. == 1)", "unique_by(.a)", "any_c(. == 1)", "all_c(. == 1)",
 	"contains(.)", "has(\"a\")", "has(0)", ".[] | has(0)", "@yaml", "@json", "@xml", "@props", "@sh", "@uri", "@urid", "to_xml", "from_json", "from_xml", "from_props", "from_csv", "from_tsv", "to_number", "to_string", "upcase", "trim", "split(\"\")", "join(\",\")", "sub(\"a\", \"b\")", "test(\".\")", "match(\".\")", "capture(\"(?P<x>.)\")",
 	".. | (select(kind == \"seq\") | sort)", ".. | (select(kind == \"map\") | keys)", ".. | (select(kind == \"seq\") | .[0])", ".. | select(tag == \"!!str\") | length", "[.. | select(tag == \"!!int\")] | sort", "[..] | sort", "[..] | unique", "[..] | group_by(tag)", "[..] | min", "[..] | max", "[..] | reverse | .[0]",
-	"omit([\"a\"])", "pick([\"a\", \"id\"])", "pick([0])", "array_to_map", ".. | alias", ".. | style", "format_datetime(\"2006\")", "to_unix", "from_unix", "tz(\"UTC\")", "eval(\".\")", "eval(.id)", "collect", "filter(.)", "flatten(1)", "first", "kind", "is_key", "document_index", "filename", "file_index",
+	"omit([\"a\"])", "pick([\"a\", \"id\"])", "pick([0])", "array_to_map", ".. | alias", ".. | style", "format_datetime(\"2006\")", "to_unix", "from_unix", "tz(\"UTC\")", "eval(\".\")", "eval(.id)", "eval(.a)", "eval(.e)", ".p | eval(.)", "eval(\"eval(.a)\")", "collect", "filter(.)", "flatten(1)", "first", "kind", "is_key", "document_index", "filename", "file_index",
 	".a[", ".a |", "(", ")", "[", "{", "}", ".. |", "| .", ".[", "\"", ".a as", "$x", ".. | .. | ..", ".[] |= (.. | .)", "..|=\"x\"", ".a = .b = .c", ". as $x | $x | $x", "..[]", ".[][]", ".[].[]", "....", ".a.[0]", ".\"a\"", ".[\"a\"]", ".a?", ".[]?", "-1", "--1", "1 -", ".a //", "// .a",
 }
 
@@ -105,15 +107,38 @@ func (C11) Generate(c *Ctx, r *Rand, index int) *Scenario {
 		fs := GenMultiFiles(r.Fork("multi"), MultiOpts{MaxFiles: 1, MaxDocs: 3, Format: fi.Name})
 		text = string(fs[0].Bytes())
 	}
-	if fi.Name == "yaml" && rs.Chance(1, 6) {
+	specialOdds := 100
+	if v, err := strconv.Atoi(os.Getenv("C11_SPECIAL_ODDS")); err == nil && v > 0 {
+		specialOdds = v // exploration aid: raise the share of adversarial legal inputs
+	}
+	if fi.Name == "yaml" && rs.Chance(1, specialOdds) {
+		// adversarial but legal YAML: anchors that contain an alias to themselves, expression text that evaluates itself
+		if rs.Chance(2, 3) {
+			text = Pick(rs, []string{"b: &x {c: *x}\n", "a: &a [*a]\n", "a: &a\n  b: &b\n    c: *a\n    d: *b\n", "x: &x {<<: *x}\n", "id: 1\nl: &l\n  - 1\n  - *l\n"})
+			sc.Meta["special"] = "cyclic-alias"
+		} else {
+			text = Pick(rs, []string{"a: \"eval(.a)\"\n", "e: eval(.e)\np: .p | eval(.)\na: eval(.e)\n"})
+			sc.Meta["special"] = "eval-self-reference"
+		}
+		sc.WatchdogS = 10
+	} else if fi.Name == "yaml" && rs.Chance(1, 6) {
 		text = Pick(rs, []string{
 			"a: &x [1, 2]\nb: *x\nc:\n  <<: {k: v}\n  d: e\n", "? [complex, key]\n: value\n? {m: 1}\n: 2\n", "a: !!binary aGVsbG8=\nb: !!set {x, y}\nc: !custom 3\nd: !!float .inf\ne: -.inf\nf: .nan\n",
 			"- &a 1\n- *a\n- [*a, *a]\n", "a: |\n  block\n  text\nb: >-\n  folded\n  text\n", "--- !tag\na: 1\n...\n---\nb: 2\n", "base: &base\n  x: 1\nderived:\n  <<: *base\n  y: 2\nlist:\n  - <<: [*base]\n", "%YAML 1.1\n---\na: 1\n", "{a: 1, b: [1, {c: d}]}\n", "? a\n", "- - - 1\n    - 2\n", "a: 0o17\nb: 0x1F\nc: 1_000\nd: 2001-12-14t21:59:43.10-05:00\ne: ~\n",
 		})
 	}
+	if fi.Name == "lua" && rs.Chance(1, 200) {
+		// Lua input is a program: one that does not end
+		text = Pick(rs, []string{"while true do end\n", "local function f() return f() end\nreturn f()\n", "repeat until false\n"})
+		sc.WatchdogS = 3
+		sc.Meta["special"] = "lua-nonterminating-program"
+	}
 	data := []byte(text)
 	rd := r.Fork("damage")
 	nDamage := rd.Weighted([]int{25, 50, 18, 7})
+	if sc.MetaString("special") != "" {
+		nDamage = 0
+	}
 	var ds []damage
 	data, ds = applyDamage(rd, data, nDamage)
 	ext := fi.Ext
@@ -167,6 +192,24 @@ func (C11) Generate(c *Ctx, r *Rand, index int) *Scenario {
 	} else {
 		argv = append(argv, "--expression="+expr, name)
 		sc.Meta["keep_flags"] = []any{"-p=" + fi.Name, "--expression=" + expr}
+	}
+	if fi.Name == "yaml" && rs.Chance(1, 25) {
+		// front matter and/or split output
+		fm := Pick(rs, []string{"--front-matter=process", "--front-matter=extract", "-s=.id", "-s=.a", "--front-matter=process -s=.id", "-s=\"out_\" + $index"})
+		argv = append(strings.Fields(fm), argv...)
+	}
+	if rs.Chance(1, 12) {
+		// in-place, with an errno at one step of the protocol
+		argv = append([]string{"-i"}, argv...)
+		site := Pick(rs, []string{"tmp.create", "inplace.statTarget", "inplace.chmod", "input.open", "copy.openSrc", "copy.createDst", "copy.copy", "copy.sync", "inplace.closeTemp", "none"})
+		switch site {
+		case "none":
+		case "inplace.closeTemp":
+			sc.Plan.Steps = []StepFault{{Site: site, Occ: 1, Action: "closefault", Keep: int64(rs.Intn(20))}}
+		default:
+			sc.Plan.Steps = []StepFault{{Site: site, Occ: 1, Action: "error", Errno: Pick(rs, []string{"EACCES", "EIO", "ENOSPC", "EMFILE", "EROFS"})}}
+		}
+		sc.TmpOther = c.W.DiskRoot != "" && rs.Chance(1, 2)
 	}
 	sc.Argv = argv
 	sc.Meta["target"] = "expr.yq" // never dropped as a whole by the shrinker
@@ -266,12 +309,64 @@ func PanicSite(stderr string) (class, site string) {
 	return
 }
 
+var entryFrameRe = regexp.MustCompile(`yqlib\.(\w+Operator|\(\*\w+\)\.(Encode|Decode|PrintResults))$`)
+
+// RecursionEntry names, for a runaway recursion, the operator / encoder / decoder
+// through which the evaluation entered it: the frame of that kind closest to
+// main (the frames near the top of an overflowing stack are an arbitrary point
+// of the cycle, the entry is stable).
+func RecursionEntry(stderr string) string {
+	loc := goroutineHdr.FindStringIndex(stderr)
+	if loc == nil {
+		return "unknown"
+	}
+	entry := "unknown"
+	fallback := ""
+	seenEntry := false
+	for _, line := range strings.Split(stderr[loc[1]:], "\n") {
+		if strings.HasPrefix(line, "goroutine ") {
+			break
+		}
+		if line == "" || strings.HasPrefix(line, "\t") {
+			continue
+		}
+		fn := line
+		if i := strings.LastIndex(fn, "("); i > 0 {
+			fn = fn[:i]
+		}
+		if entryFrameRe.MatchString(fn) {
+			e := fn[strings.Index(fn, "yqlib."):]
+			structural := strings.HasSuffix(e, "PrintResults") || strings.HasSuffix(e, "pipeOperator") || strings.HasSuffix(e, "unionOperator") || strings.HasSuffix(e, "blockOperator")
+			if structural {
+				if fallback == "" {
+					fallback = e
+				}
+				continue
+			}
+			if !seenEntry {
+				// frames are listed from the top of the stack: keep overwriting so that the one closest to main wins
+			}
+			seenEntry = true
+			entry = e
+		}
+	}
+	if !seenEntry && fallback != "" {
+		entry = fallback
+	}
+	return strings.TrimPrefix(entry, "yqlib.")
+}
+
 func (C11) Judge(c *Ctx, sc *Scenario) []Violation {
 	out := c.Exec(sc)
 	format := sc.MetaString("format")
 	var vs []Violation
+	special := sc.MetaString("special")
 	add := func(oracle, detail, msg string) {
 		sig := fmt.Sprintf("%s %s", oracle, detail)
+		if special != "" && (strings.Contains(detail, "hang=") || strings.Contains(detail, "stack overflow") || strings.Contains(detail, "out of memory")) {
+			// resource exhaustion on an adversarial legal input: the signature names the input class
+			sig += " input=" + special
+		}
 		vs = append(vs, Violation{Prop: "C11", Oracle: oracle, Sig: sig, Class: sig, Msg: msg + " | in=" + format + " argv=" + strings.Join(sc.Argv, " ")})
 	}
 	faulted := false
@@ -317,18 +412,22 @@ func (C11) Judge(c *Ctx, sc *Scenario) []Violation {
 			}
 		}
 	}
-	switch {
-	case out.TimedOut:
-		// backstop: only counts if an isolated replay with a tripled limit also fails to end
+	if out.TimedOut {
+		// backstop: only counts if an isolated re-run with a tripled limit also fails to end;
+		// if that one ends, it is the run that is judged (the first was slowed down by load)
 		w2 := *c.W
 		w2.Watchdog = 60e9
+		if sc.WatchdogS > 0 {
+			w2.Watchdog = time.Duration(3*sc.WatchdogS) * time.Second
+		}
 		o2 := w2.Run(sc, RunOpts{Slot: c.Slot})
 		if o2.TimedOut {
-			add("O11.2", "hang=watchdog in="+format, "yq did not terminate within 60 s (isolated re-run)")
-		} else {
-			harnessPanic("watchdog hit that does not reproduce in isolation (load artefact)")
+			add("O11.2", "hang=watchdog in="+format, fmt.Sprintf("yq did not terminate within %v (isolated re-run)", w2.Watchdog))
+			return vs
 		}
-		return vs
+		out = o2
+	}
+	switch {
 	case out.Exit == ExitBudget:
 		add("O11.2", "hang=step-budget in="+format, "yq exceeded the step budget (hook-counted operator dispatches and reads)")
 		return vs
@@ -338,6 +437,9 @@ func (C11) Judge(c *Ctx, sc *Scenario) []Violation {
 	}
 	if crashed, how := out.Crashed(); crashed {
 		class, site := PanicSite(string(out.Stderr))
+		if class == "stack overflow" {
+			site = "entry:" + RecursionEntry(string(out.Stderr))
+		}
 		add("O11.1", fmt.Sprintf("%s=%s at=%s", how, class, site), "yq crashed: "+firstLines(out.Stderr, 12))
 		return vs
 	}
